@@ -357,8 +357,8 @@ PROPS = {
                             "size: returned count = bytes emitted; a struct's fields come out in schema order, each from the value given under its name or alias or from its default, for "
                             "every hand-over order and every set of skipped / missing fields; under SerOk (integer ranges of the Rust types, valid UTF-8, declared lengths, distinct map "
                             "keys, sizes within the reader's limit) the bytes written are a specification-legal encoding (Spec.SpecEnc, the relation of C02) of some value under the schema, "
-                            "which the generic decoder reads back as exactly one datum whatever follows. NOT in the statement: str written to a uuid schema and bytes written to uuid / "
-                            "big-decimal / duration schemas; that the value read back is the one the Rust value converts to (to_value + resolve); the schema-aware deserializer - decided by "
+                            "which the generic decoder reads back as exactly one datum whatever follows (logical types in the form their Rust types hand them over: uuid as 16 bytes or canonical "
+                            "text, duration as 12 bytes, big-decimal in its serialized form). NOT in the statement: that the value read back is the one the Rust value converts to (to_value + resolve); the schema-aware deserializer - decided by "
                             "the exact rows and the oracle (read_deser, generic decode + validate, to_value/resolve, from_value)"},
         ],
         "harness": c16_runs,
